@@ -963,26 +963,55 @@ func ruleA18(c *Ctx) {
 		return
 	}
 	n := 0
+	// the matcher, the plain helpers of its package it calls, and the read-only tables they look
+	// things up in: every operand-type constant an operand type is compared with (or mapped to)
+	bodies := []*ast.FuncDecl{fd}
 	ast.Inspect(fd.Body, func(x ast.Node) bool {
-		be, ok := x.(*ast.BinaryExpr)
-		if !ok || (be.Op != token.EQL && be.Op != token.NEQ) {
-			return true
-		}
-		for _, pair := range [][2]ast.Expr{{be.X, be.Y}, {be.Y, be.X}} {
-			id, ok := ast.Unparen(pair[0]).(*ast.Ident)
-			if !ok || id.Name != "queryType" {
-				continue
+		if call, ok := x.(*ast.CallExpr); ok {
+			if fn, ok := calleeOf(p.TypesInfo, call).(*types.Func); ok && fn.Pkg() == p.Types {
+				if hd := funcDeclOf(p, fn); hd != nil && hd.Body != nil && hd.Recv == nil && hd != fd {
+					bodies = append(bodies, hd)
+				}
 			}
-			s, isConst := constStr(p.TypesInfo, pair[1])
-			if !isConst {
-				continue
-			}
-			n++
-			c.check(!strings.HasPrefix(s, "imm"), "A18", "matchOperandsWithAccumulator|queryType compared with "+s, c.L.Pos(be.Pos()),
-				"the accumulator matcher singles out the immediate size class "+s+": constants of that class lose the short accumulator encoding")
 		}
 		return true
 	})
+	seenPos := map[token.Pos]bool{}
+	judge := func(s string, pos token.Pos) {
+		if seenPos[pos] {
+			return
+		}
+		seenPos[pos] = true
+		if regClassTypes[s] || strings.HasPrefix(s, "imm") {
+			n++
+			c.check(!strings.HasPrefix(s, "imm"), "A18", "matchOperandsWithAccumulator|operand type compared with "+s, c.L.Pos(pos),
+				"the accumulator matcher singles out the immediate size class "+s+": constants of that class lose the short accumulator encoding")
+		}
+	}
+	for _, body := range bodies {
+		ast.Inspect(body.Body, func(x ast.Node) bool {
+			be, ok := x.(*ast.BinaryExpr)
+			if !ok || (be.Op != token.EQL && be.Op != token.NEQ) {
+				return true
+			}
+			for _, side := range []ast.Expr{be.X, be.Y} {
+				if s, isConst := constStr(p.TypesInfo, side); isConst {
+					judge(s, side.Pos())
+				}
+			}
+			return true
+		})
+		for _, t := range readOnlyMapTables(c, p, body) {
+			for _, kv := range t.Rows {
+				if s, ok := constStr(p.TypesInfo, kv.Value); ok {
+					judge(s, kv.Value.Pos())
+				}
+				if s, ok := constStr(p.TypesInfo, kv.Key); ok && strings.HasPrefix(s, "imm") {
+					judge(s, kv.Key.Pos())
+				}
+			}
+		}
+	}
 	c.check(n >= 3, "A18", "matchOperandsWithAccumulator|register-class comparisons found", c.L.Pos(fd.Pos()), fmt.Sprintf("%d comparisons of queryType with constants", n))
 }
 
